@@ -121,7 +121,7 @@ _core_prop("C06", "Merge admits only verified, authorised entries and is all-or-
 
 FETCH_NOTE = ("Trusted: Lean kernel; the fetcher is modelled as a nondeterministic transition system that over-approximates the heap priority and the semaphore (every real schedule is a model trace); "
               "block decoding, the Go scheduler, sync.Cond/semaphore and wall-clock timeouts are runtime behaviour: the logic is proved, the runtime is exercised (trace validation with controlled completion order, watchdog, elapsed time against the timeout); content addressing; harness, driver.")
-FETCH_STREAM = dict(name="fetch", quick=["-n", "60"], thorough=["-n", "1500", "-thorough"], shards_quick=4, shards_thorough=14)
+FETCH_STREAM = dict(name="fetch", quick=["-n", "150"], thorough=["-n", "1500", "-thorough"], shards_quick=4, shards_thorough=14)
 FETCH_RULE = ("fetch stream: random forked/merged stored logs (2-4 writers, pointer counts 1-16) x 5-8 operations each (FetchAll from heads/random entries/unknown cids, the four loaders) with length in {-1, 0..size+3}, concurrency {1,2,4,32}, fault sets (absent/error/corrupt/slow), exclusion predicates, PRNG-controlled completion order (gated Gets) or stalls with timeouts; "
               "distinct = distinct (log shape, operation, length, fault set) cases; non-trivial = forked log with at least one reference and a limit below the size or a non-empty fault set")
 
